@@ -19,7 +19,7 @@ CHECKS = {
     'C04': dict(
         category='other', design_ref='DESIGN.md §5 C04',
         technique='grammar-automaton analysis (serialized ATN decoded from the compiled program, path enumeration per rule) + agreement of generated Rust constants with it + provenance rules over the visitor',
-        text='Decides: rule nesting and `?:` right associativity, flat `||`/`&&` lists, operator classes of relation/calc with right operand at level n+1 and multiplicative above additive in the ATN and identically in the generated Rust, operand order of every call node the visitor builds, operator text table, that each visitor method returns only the node built by its designated constructor (a visited child or the error placeholder otherwise), label binding in source order, source order of logical chains through the balanced tree, prefix parity and that no visit result is dropped, macros placing receiver/arguments unchanged. The round trip itself is value-level and not decided.',
+        text='Decides: rule nesting and `?:` right associativity, flat `||`/`&&` lists, operator classes of relation/calc with right operand at level n+1 and multiplicative above additive in the ATN and identically in the generated Rust, operand order of every call node the visitor builds, operator text table, that each visitor method returns only the node built by its designated constructor (a visited child or the error placeholder otherwise), label binding in source order, source order of logical chains through the balanced tree, prefix parity and that no visit result is dropped, macros placing receiver/arguments unchanged. The round trip itself is value-level and not decided. The parser never matches on an already built Expr (two macro argument checks excepted); literal, select and identifier nodes take their parts from their own children in source order.',
         note='ATN format v3 and antlr4rust adaptive prediction trusted; reference table from the property'),
     'C02': dict(
         category='other', design_ref='DESIGN.md §5 C02, §4 analysis B',
@@ -34,7 +34,7 @@ CHECKS = {
     'C18': dict(
         category='other', design_ref='DESIGN.md §5 C18',
         technique='decision-tree arm table with provenance predicates, use/def rule for nested results, panic-edge audit',
-        text='Per Value variant the export arm is exactly the documented mapping (conversions by serde_json From of the payload without casts, base64 STANDARD, RFC 3339, nanosecond count with overflow error, catch-all error); nested json() results are `?`-propagated or collected into a Result; json.rs has no panic edge. The import-back round trip is not decided.',
+        text='Per Value variant the export arm is exactly the documented mapping (conversions by serde_json From of the payload without casts, base64 STANDARD, RFC 3339, nanosecond count with overflow error, catch-all error); nested json() results are `?`-propagated or collected into a Result; json.rs has no panic edge. The import-back round trip is not decided. Producer rule P1 re-checks the serializer shape table and store-every-entry effects used by the import leg (C17 R1).',
         note='analysed with the json feature; serde_json/base64/chrono behaviour trusted'),
     'C16': dict(
         category='other', design_ref='DESIGN.md §5 C16',
@@ -49,7 +49,7 @@ CHECKS = {
     'C12': dict(
         category='other', design_ref='DESIGN.md §5 C12',
         technique='abstract interpretation of the escape branch of both decoders for every ASCII escape character, compared with the specification table and with the lexer ATN (decoded from the generated source)',
-        text='Only the escape-table clause: for each decoder and each ASCII character the code after a backslash is classified on every path (appends one constant code point / n hex digits / octal / error); the table must equal the CEL specification and accept exactly what the lexer ATN admits; helpers use radix 16/8, the stated digit counts and the 0o377 bound; bytes reject \\u/\\U; raw strings must not process backslashes; invalid code points are errors. Two disagreements pinned by existing tests are known findings. Bytes delimiters: every shape the lexer admits is stripped exactly (no constant-offset slice for one shape only, no greedy trim* of literal text), raw prefix recognised.',
+        text='Only the escape-table clause: for each decoder and each ASCII character the code after a backslash is classified on every path (appends one constant code point / n hex digits / octal / error); the table must equal the CEL specification and accept exactly what the lexer ATN admits; helpers use radix 16/8, the stated digit counts and the 0o377 bound; bytes reject \\u/\\U; raw strings must not process backslashes; invalid code points are errors. Two disagreements pinned by existing tests are known findings. Bytes delimiters: every shape the lexer admits is stripped exactly (no constant-offset slice for one shape only, no greedy trim* of literal text), raw prefix recognised. The lexer is fed the source parameter itself; triple-quoted string shapes are recognised; producer rule P1: literal nodes come only from the literal visitors (C04 R7/R9).',
         note='reference table tables/reference/escapes.json and the embedded lexer ATN trusted'),
     'C20': dict(
         category='other', design_ref='DESIGN.md §5 C20',
@@ -59,27 +59,27 @@ CHECKS = {
     'C10': dict(
         category='other', design_ref='DESIGN.md §5 C10',
         technique='constant-tree propagation (abstract interpretation of the loop-free macro expanders) compared with reference expansions; MIR loop-shape rules with SCCP for the fold',
-        text='The expansion of all/exists/exists_one/map(2,3)/filter is extracted for every admitted arity by abstract interpretation (finite trees, exact Vec sequences, all paths) and must equal the cel-go reference template; find_expander is enumerated over its whole decision partition; the evaluator\'s fold loop must have the cond -> exit-on-false -> bind item -> step -> bind accumulator shape, result after the loop, errors aborting, forward iteration; @not_strictly_false table. That the expanded operators compute the right values is C06/C08.',
+        text='The expansion of all/exists/exists_one/map(2,3)/filter is extracted for every admitted arity by abstract interpretation (finite trees, exact Vec sequences, all paths) and must equal the cel-go reference template; find_expander is enumerated over its whole decision partition; the evaluator\'s fold loop must have the cond -> exit-on-false -> bind item -> step -> bind accumulator shape, result after the loop, errors aborting, forward iteration; @not_strictly_false table. That the expanded operators compute the right values is C06/C08. Producer rules P1: macros expand around their operands (C04 R6/R9) and re-binding a scope variable always writes (C11 R2/R4).',
         note='reference table tables/reference/macros.json trusted; expanders must stay loop-free with modelled Vec operations (else fail closed)'),
     'C11': dict(
         category='other', design_ref='DESIGN.md §5 C11',
         technique='provenance/dominance rules over Context accessors and the comprehension arm + rustc compile_fail witnesses (E0502, E0597)',
-        text='Lookup consults the own map first and the parent only on a miss; writes go only to the scope\'s own map; the comprehension evaluates range/init in the outer scope before the inner scope exists and cond/step/result in the inner scope with all writes targeting it; function and variable namespaces use disjoint fields; rustc rejects mutating a borrowed parent or outliving it. The sequence semantics follows from these for any sequence of operations.',
+        text='Lookup consults the own map first and the parent only on a miss; writes go only to the scope\'s own map; the comprehension evaluates range/init in the outer scope before the inner scope exists and cond/step/result in the inner scope with all writes targeting it; function and variable namespaces use disjoint fields; rustc rejects mutating a borrowed parent or outliving it. The sequence semantics follows from these for any sequence of operations. Every non-error path of add_variable/add_variable_from_value inserts the given value.',
         note='needs C05 O2 (no interior mutability in Context)'),
     'C13': dict(
         category='other', design_ref='DESIGN.md §5 C13',
         technique='interval + NaN-flag abstract interpretation over mandatory branch edges for float->int casts; API/table rules for literal visitors and conversion built-ins',
-        text='Decides: every float->integer cast in the built-ins is dominated by guards that exclude NaN and establish the half-open range of the target; int<->uint conversion uses propagated try_into; literal visitors take the value from str::parse/from_str_radix(16) of the right type with the error reported, finite doubles only, no casts/defaults; conversion built-ins pair Display/FromStr of matching types. Round-trips are delegated to std and not decided.',
+        text='Decides: every float->integer cast in the built-ins is dominated by guards that exclude NaN and establish the half-open range of the target; int<->uint conversion uses propagated try_into; literal visitors take the value from str::parse/from_str_radix(16) of the right type with the error reported, finite doubles only, no casts/defaults; conversion built-ins pair Display/FromStr of matching types. Round-trips are delegated to std and not decided. Signed hex spellings are recognised, double(string) rejects overflow; producer rule P1: no constant folding in the parser (C04 R5/R7/R9).',
         note='IEEE/`as` semantics and std parse/Display trusted'),
     'C09': dict(
         category='other', design_ref='DESIGN.md §5 C09',
         technique='MIR table/decision-tree rules + cast rule with interval/NaN abstract interpretation over dominating branch edges',
-        text='Decides: the relation-operator table (partial_cmp -> bool per operator, None -> ValuesNotComparable, != is the provided negation of ==), orderable pairs are equatable pairs, no lossy int->float cast feeds a comparison and the float->int casts of the exact comparison helpers are NaN- and range-guarded, orientation of the mixed arms, same-kind arms compare (self, other) payloads with the own order of the kind (IEEE partial_cmp/== for doubles, never total_cmp/to_bits), min/max fold polarity. Transitivity/trichotomy over all values are not decided.',
+        text='Decides: the relation-operator table (partial_cmp -> bool per operator, None -> ValuesNotComparable, != is the provided negation of ==), orderable pairs are equatable pairs, no lossy int->float cast feeds a comparison and the float->int casts of the exact comparison helpers are NaN- and range-guarded, orientation of the mixed arms, same-kind arms compare (self, other) payloads with the own order of the kind (IEEE partial_cmp/== for doubles, never total_cmp/to_bits), min/max fold polarity. Transitivity/trichotomy over all values are not decided. Equality of Map/Key is the derived structural one; int-to-int casts in comparisons are range-guarded; producer rule P1 re-checks the parser-side construction of relation nodes (C04).',
         note='std Ord/PartialOrd of primitives and derived structural equality trusted'),
     'C14': dict(
         category='other', design_ref='DESIGN.md §5 C14',
         technique='who-calls rule over resolved call sites with key-provenance classification; shape rules for Map::get, index and `in` arms',
-        text='Decides the lookup-agreement clause: every lookup of a possibly numeric key on a CEL map goes through Map::get (the int/uint cross lookup), Map::get tries the exact key first and converts with try_from, list indexing uses get -> Null, `in` on lists is contains, map literals insert every evaluated entry; list/string `+` appends rhs to a copy-on-write view of self in order and size() is len() of the own payload (additivity then follows from std contracts); has(m.f) consults only the keys of the map (no member()/registry fallback).',
+        text='Decides the lookup-agreement clause: every lookup of a possibly numeric key on a CEL map goes through Map::get (the int/uint cross lookup), Map::get tries the exact key first and converts with try_from, list indexing uses get -> Null, `in` on lists is contains, map literals insert every evaluated entry; list/string `+` appends rhs to a copy-on-write view of self in order and size() is len() of the own payload (additivity then follows from std contracts); has(m.f) consults only the keys of the map (no member()/registry fallback). Producer rule P1 re-checks the parser-side construction of index, `in`, select and literal nodes (C04 R3/R7/R8/R9).',
         note='std HashMap/slice contracts trusted; string/bool keys have no numeric twin'),
     'C19': dict(
         category='other', design_ref='DESIGN.md §5 C19',
@@ -89,17 +89,17 @@ CHECKS = {
     'C06': dict(
         category='other', design_ref='DESIGN.md §5 C06',
         technique='MIR path rule: sparse conditional constant propagation under an assumed to_bool(left) + CFG reachability of evaluation sites',
-        text='For the `&&`, `||`, `?:` arms of the evaluator the skipped operand\'s evaluation site is CFG-unreachable once to_bool(left) is fixed to the deciding value, reachable otherwise, never before the test and never in an operator-agnostic prelude. A statement about every path of the evaluator, hence about every program; not a proof of the whole property because it is intra-procedural (inlining bound 0) and trusts MIR construction.',
+        text='For the `&&`, `||`, `?:` arms of the evaluator the skipped operand\'s evaluation site is CFG-unreachable once to_bool(left) is fixed to the deciding value, reachable otherwise, never before the test and never in an operator-agnostic prelude. A statement about every path of the evaluator, hence about every program; not a proof of the whole property because it is intra-procedural (inlining bound 0) and trusts MIR construction. Producer rule P1 re-checks the parser-side construction of `?:` and logical chains (C04 R3/R4/R7/R9).',
         note='guard must be a boolean function of Value::to_bool(left) inside Value::resolve; anything else fails closed; macros expand to these operators (C10)'),
     'C07': dict(
         category='other', design_ref='DESIGN.md §5 C07',
         technique='MIR path-sequence rules: CFG reachability/dominance between provenance-identified evaluation sites, extractor and adapter shape rules, who-may-call rule',
-        text='Decides the structural clauses: nothing is evaluated before the lazy function dispatch, sites of one node are ordered by argument index and not re-entered without advancing an iterator, extractors consume arguments one by one, only the evaluator layer calls resolve, the 20 adapters extract C1..Cn in order, and the hand-written parser never places a copy of a sub-expression into the tree. "Bounded work" is the consequence and is not measured.',
+        text='Decides the structural clauses: nothing is evaluated before the lazy function dispatch, sites of one node are ordered by argument index and not re-entered without advancing an iterator, extractors consume arguments one by one, only the evaluator layer calls resolve, the 20 adapters extract C1..Cn in order, and the hand-written parser never places a copy of a sub-expression into the tree. "Bounded work" is the consequence and is not measured. A call node is dispatched at most once and the evaluator copies only call.args; producer rule P1 re-checks the parser-side construction of calls and literals (C04 R3/R8/R9).',
         note='host functions using Arguments together with positional extractors or the public FunctionContext fields are outside the claim; std iterator contracts trusted'),
     'C08': dict(
         category='other', design_ref='DESIGN.md §5 C08',
         technique='MIR operator whitelist + provenance-checked sibling table over the five arithmetic impls and unary minus',
-        text='No raw integer arithmetic or non-checked integer method in the arithmetic impls/unary minus; each (trait, kind) uses checked_<same op> with (self,rhs) operand order and Some->same kind / None->expected error; Int Div/Rem test for zero first; no numeric casts or mixed numeric arms. With std\'s checked_* contract this implies exact-or-error for all operands.',
+        text='No raw integer arithmetic or non-checked integer method in the arithmetic impls/unary minus; each (trait, kind) uses checked_<same op> with (self,rhs) operand order and Some->same kind / None->expected error; Int Div/Rem test for zero first; no numeric casts or mixed numeric arms. With std\'s checked_* contract this implies exact-or-error for all operands. Producer rule P1 re-checks the parser-side construction of arithmetic and unary-minus nodes (C04 R3/R5/R7/R9).',
         note='std checked_* contract trusted; f64 arithmetic is IEEE by construction'),
     'C05': dict(
         category='proof', design_ref='DESIGN.md §5 C05',
